@@ -36,6 +36,9 @@ type status struct {
 
 func main() {
 	out := "/verif/.cache/overlay"
+	if d := os.Getenv("VERIF_DIR"); d != "" {
+		out = d + "/.cache/overlay"
+	}
 	if len(os.Args) > 1 {
 		out = os.Args[1]
 	}
